@@ -10,10 +10,12 @@ YVGen.ImportArms and compared by computation; (b) impl == M: harness `mods` (hos
 map, LOAD records) on generated module programs, loader-call sequence + output + outcome against
 ModLang.eval_mech (vm_compute); (c) impl == S: the same against ModLang.eval_spec; plus the
 tests/scripts/modules corpus and two fixed probes (import at the frame limit, error classes in modules)."""
+import binascii
 import itertools
 import json
 import os
 import re
+import shutil
 
 import yvlib
 from yvlib import hx, log
@@ -346,7 +348,9 @@ def eval_models(progs, cm, tag):
     terms = ['RC "%s"' % wire(p) for p in progs]
     n = len(terms)
     shard = max(1, min(60, (n + yvlib.NPROC - 1) // yvlib.NPROC))
-    vals = yvlib.coq_eval(["YV:ModLang"], terms, shard_size=shard, tag="C14" + tag, preamble=coq_preamble(cm))
+    vals = yvlib.coq_eval(["YV:ModLang"], terms, shard_size=shard, tag="C14%s_%d" % (tag, os.getpid()), preamble=coq_preamble(cm))
+    shutil.rmtree(os.path.join(yvlib.BUILD, "cases", "C14%s_%d" % (tag, os.getpid())), ignore_errors=True)
+    shutil.rmtree(os.path.join(yvlib.BUILD, "cases", "C14%s_%d_retry" % (tag, os.getpid())), ignore_errors=True)
     res = []
     for v in vals:
         if v is None or v.count("@") != 2:
@@ -359,6 +363,41 @@ def eval_models(progs, cm, tag):
             name, src = p.split("^", 1)
             mods[name] = src
         res.append({"mech": mech, "spec": spec, "main": parts[0], "mods": mods})
+    return res
+
+
+def refspec_available():
+    return all(os.path.exists(os.path.join(yvlib.COQ, "theories", f)) for f in ("SpecRun.vo", "ParseRun.vo", "SpecScripts.vo"))
+
+
+def eval_refspec(models, tag):
+    """the full reference interpreter (SpecRun.run_program through SpecScripts.run_case, other owners' files) on the
+    rendered sources with the module map -> list of (out lines, result lines) | None"""
+    terms = []
+    for m in models:
+        mods = "; ".join('("%s", "%s")' % (k, binascii.hexlify(v.encode()).decode()) for k, v in sorted(m["mods"].items()))
+        terms.append('run_case 300 [%s] "%s"' % (mods, binascii.hexlify(m["main"].encode()).decode()))
+    n = len(terms)
+    shard = max(1, min(40, (n + yvlib.NPROC - 1) // yvlib.NPROC))
+    t = "C14ref%s_%d" % (tag, os.getpid())
+    vals = yvlib.coq_eval(["YV:SpecScripts"], terms, shard_size=shard, tag=t, preamble="Open Scope string_scope.\n")
+    shutil.rmtree(os.path.join(yvlib.BUILD, "cases", t), ignore_errors=True)
+    shutil.rmtree(os.path.join(yvlib.BUILD, "cases", t + "_retry"), ignore_errors=True)
+    res = []
+    for v in vals:
+        mm = re.match(r"^out=\[([0-9a-f,]*)\];res=(ok|err):([^:]*)(?::\[([0-9a-f,]*)\])?$", v or "")
+        if not mm:
+            res.append(None)
+            continue
+        unh = lambda h: binascii.unhexlify(h).decode("utf-8", "replace")
+        out = [unh(x).split("\n")[0] for x in mm.group(1).split(",") if x] if mm.group(1) else []
+        # an empty print would be an empty hex string: not produced by these programs
+        if mm.group(2) == "ok":
+            result = ["ok"]
+        else:
+            msgs = [unh(x) for x in (mm.group(4) or "").split(",") if x]
+            result = ["dead " + mm.group(3)] + [m for m in msgs if not TRACE_RE.match(m)]
+        res.append((out, result))
     return res
 
 
@@ -411,6 +450,10 @@ class Checker:
         self.open_classes = {k.get("class") for k in ctx.known_open()}
         self.pending = {}
         self.evals = 0
+        self.refspec = refspec_available()
+        self.ref_evals = self.ref_failed = self.ref_diff = 0
+        self.ref_examples = []
+        self.ref_sample = lambda n: min(n, 60 if ctx.quick() else 1200)
         self.retried = 0
         self.nontrivial = set()
         self.mism_m = 0
@@ -491,6 +534,19 @@ class Checker:
                 self.mism_m += 1
                 if self.mism_m <= 5:
                     ctx.corr_broken.append("impl != M (Modules.v/ModLang.eval_mech) on %s | impl %s | model %s" % (w, impl_str(rec)[:400], m["mech"][:400]))
+        if self.refspec and progs:
+            k = self.ref_sample(len(progs))
+            idx = [i for i in sorted(self.ctx.rng.sample(range(len(progs)), min(k, len(progs)))) if models[i] is not None]
+            refs = eval_refspec([models[i] for i in idx], tag)
+            for i, r in zip(idx, refs):
+                self.ref_evals += 1
+                io, il, ir = impl_obs(recs[i])
+                if r is None:
+                    self.ref_failed += 1
+                elif (io, ir) != r:
+                    self.ref_diff += 1
+                    if len(self.ref_examples) < 3:
+                        self.ref_examples.append({"wire": wire(progs[i]), "impl": [io, ir], "reference": list(r)})
         if len(self.samples) < 4 and progs:
             k = len(progs) // 2
             if models[k]:
@@ -674,6 +730,11 @@ def run(ctx):
                           "expected": models[0]["spec"], "actual": impl_str(recs[0]), "model": models[0]["mech"]})
         except Exception as e:  # keep the unshrunk witness
             ctx.notes.append("shrinking failed: %r" % e)
+    if not ch.refspec:
+        ctx.notes.append("SpecRun/ParseRun/SpecScripts .vo not present: comparison with the full reference interpreter skipped")
+    elif ch.ref_diff or ch.ref_failed:
+        ctx.notes.append("full reference interpreter (SpecRun.run_program; not owned by this check) disagrees with the implementation on %d of %d "
+                         "sampled module programs (%d not evaluated): %s" % (ch.ref_diff, ch.ref_evals, ch.ref_failed, json.dumps(ch.ref_examples)[:1500]))
     findings = load_findings()
     for cls, n in sorted(ch.pending.items()):
         ctx.notes.append("finding %s reproduced on %d case(s); recorded in notes/C14-findings.json (%s), not yet an open class of known_findings.json"
@@ -694,6 +755,8 @@ def run(ctx):
         "main_only_name_cases": ch.flag_b, "harness_cases_retried_after_crash": ch.retried,
         "exhaustive": (not quick),
         "pending_findings": ch.pending,
+        "reference_interpreter_compared": ch.ref_evals, "reference_interpreter_disagreements": ch.ref_diff,
+        "reference_interpreter_eval_failed": ch.ref_failed,
     })
 
 
